@@ -359,7 +359,7 @@ def sim_with_library(args):
     u.UWG.load_refDOE = staticmethod(patched)
     try:
         with core.quiet():
-            m = U.new_model(epw=epw, outdir=tempfile.gettempdir(), outname='c19g_%d.epw' % os.getpid(),
+            m = U.new_model(epw=epw, outdir=(os.environ.get('VERIF_WORK_TMP') or tempfile.gettempdir()), outname='c19g_%d.epw' % os.getpid(),
                             nday=1, dtsim=300, month=month, day=day, bld=stock, zone=zone)
             m.generate()
             m.simulate()
